@@ -347,7 +347,7 @@ func c12Exec(w *c12World, r c12Run) (sig, what string) {
 func replayC12(raw json.RawMessage) (string, error) {
 	var pp progPath
 	if json.Unmarshal(raw, &pp) == nil && len(pp.Syms) > 0 {
-		return progReplay(pp, progSeeds(true), progAlphabet(true), false, c12ProgOracle)
+		return progReplay(pp, progSeeds(true), progAlphabetInt(), false, c12ProgOracle)
 	}
 	var rr c12Run
 	if json.Unmarshal(raw, &rr) == nil && len(rr.Prog) > 0 {
@@ -458,7 +458,7 @@ func runC12(r *report.Run) {
 	if thorough {
 		depth = 5
 	}
-	syms, seeds := progAlphabet(true), progSeeds(true)
+	syms, seeds := progAlphabetInt(), progSeeds(true)
 	st, tr := progSearch(depth, seeds, syms, false, 0x9E3779B9, progVisitOf(r, 0x9E3779B9, c12ProgOracle))
 	// ---- RunUntil part
 	pdepth := 3
